@@ -22,18 +22,19 @@ def specs(tier):
     caps = [None, 0] + ([1] if tier == "thorough" else [])
     for fam in fams:
         for which in ("dict", "list"):
-            t = MUT[which] if tier == "quick" else [o.name for o in ops.mutators(which)]
+            # thorough: every table mutator for the plain families at default capacity, the quick table elsewhere
             for cap in caps:
+                t = [o.name for o in ops.mutators(which)] if (tier == "thorough" and cap is None and not fam.endswith("Attr")) else MUT[which]
                 for rel in ("two-files", "two", "same"):
                     for i, a in enumerate(t):
                         for b in t[i:]:
-                            out.append({"fam": fam, "which": which, "relation": rel, "op1": a, "op2": b, "ctx": ["backend", cap], "variants": tier == "thorough"})
+                            out.append({"fam": fam, "which": which, "relation": rel, "op1": a, "op2": b, "ctx": ["backend", cap], "variants": False})
                 # reads through an object no other thread is using (its own object on the
                 # same file, or on another file) next to a mutator on the other object
                 for rel in ("two", "two-files"):
                     for r in PRIVATE_READS[which] if tier == "quick" else PRIVATE_READS_T[which]:
                         for b in t:
-                            out.append({"fam": fam, "which": which, "relation": rel, "op1": r, "op2": b, "ctx": ["backend", cap], "variants": tier == "thorough"})
+                            out.append({"fam": fam, "which": which, "relation": rel, "op1": r, "op2": b, "ctx": ["backend", cap], "variants": False})
     return out
 
 
@@ -52,7 +53,7 @@ def main(tier, seed):
 
 
 BOUNDS = {"quick": {"classes": "BufferedJSON / MemoryBufferedJSON dict and list", "capacities": [None, 0], "threads": 2, "operations_per_thread": 1, "mutators": MUT, "relations": ["two-files", "two", "same"]},
-          "thorough": {"classes": "+ attribute-access variants", "capacities": [None, 0, 1], "mutators": "all table entries", "trace_variants": True}}
+          "thorough": {"classes": "+ attribute-access variants", "capacities": [None, 0, 1], "mutators": "all table entries for the plain families at default capacity, the quick table elsewhere"}}
 ASSUMPTIONS = [
     "outcome compared with the two serial orders: per-thread results, content of every file after the context exits, exception of the exit, reported buffer size, final reads",
     "conflict-serializability of the recorded events is a sufficient condition; sat witnesses count only after replay on real threads (a hang counts as a violation)",
